@@ -17,6 +17,24 @@ var synNumbers = []string{"0", "1", "2", "10", "3.5", "০", "৪২", "১.৫"
 
 type synGen struct {
 	rt *rapid.T
+	// scalarStores: values stored into elements/properties are scalar
+	// expressions, so that no self-containing value can be built (C07 excludes
+	// printing such values: open finding K13)
+	scalarStores bool
+}
+
+func (g *synGen) storeValue(d int) bn.Expr {
+	if !g.scalarStores {
+		return g.expr(d)
+	}
+	switch g.pick("sv", 3) {
+	case 0:
+		return numLit(rapid.SampledFrom(synNumbers).Draw(g.rt, "num"))
+	case 1:
+		return bn.Str(rapid.SampledFrom(synStrings).Draw(g.rt, "str"))
+	default:
+		return bn.Bin(rapid.SampledFrom(bn.BinOpList).Draw(g.rt, "bop"), numLit(rapid.SampledFrom(synNumbers).Draw(g.rt, "num")), numLit(rapid.SampledFrom(synNumbers).Draw(g.rt, "num")))
+	}
 }
 
 func (g *synGen) pick(label string, n int) int { return rapid.IntRange(0, n-1).Draw(g.rt, label) }
@@ -84,9 +102,9 @@ func (g *synGen) expr(depth int) bn.Expr {
 		case 0:
 			return &bn.Assign{Name: rapid.SampledFrom(synIdents).Draw(g.rt, "id"), V: g.expr(d)}
 		case 1:
-			return &bn.IndexSet{A: g.expr(d), I: g.expr(d), V: g.expr(d)}
+			return &bn.IndexSet{A: g.expr(d), I: g.expr(d), V: g.storeValue(d)}
 		default:
-			return &bn.PropSet{O: g.expr(d), Name: rapid.SampledFrom(synProps).Draw(g.rt, "prop"), V: g.expr(d)}
+			return &bn.PropSet{O: g.expr(d), Name: rapid.SampledFrom(synProps).Draw(g.rt, "prop"), V: g.storeValue(d)}
 		}
 	case 9, 10:
 		return &bn.Call{Callee: g.expr(d), Args: g.exprs(d, 3)}
